@@ -22,15 +22,16 @@ import (
 
 type C15Case struct {
 	Script
-	Ending       string `json:"ending"`                  // peer-logout | local-logout | stop
-	AnswerKind   string `json:"answer_kind"`             // never | immediately | half | just-before | after
-	AppHandler   string `json:"app_handler"`             // the application's own EventLogout handler: none | true | false (its return value)
-	EndStep      int    `json:"end_step"`                // index of the peer Logout / local Logout / Stop step
-	AnswerStep   int    `json:"answer_step"`             // index of the peer's answering Logout (-1: none)
-	DamagedFirst bool   `json:"damaged_first,omitempty"` // peer-logout ending: a damaged Logout precedes the intact one
-	RefuseLogout bool   `json:"refuse_logout,omitempty"` // stop ending: an application outgoing handler refuses the Logout, so it never reaches the peer; the deadline still ends the session
-	CounterFails bool   `json:"counter_fails,omitempty"` // peer-logout ending: the counter store fails from just before the peer's Logout on; the Logout is answered all the same
-	Probed       bool   `json:"probed"`                  // local endings: the peer has been silent long enough for the session to have sent its TestRequest; the local Logout()/Stop() comes while that is unanswered
+	Ending        string `json:"ending"`                   // peer-logout | local-logout | stop
+	AnswerKind    string `json:"answer_kind"`              // never | immediately | half | just-before | after
+	AppHandler    string `json:"app_handler"`              // the application's own EventLogout handler: none | true | false (its return value)
+	EndStep       int    `json:"end_step"`                 // index of the peer Logout / local Logout / Stop step
+	AnswerStep    int    `json:"answer_step"`              // index of the peer's answering Logout (-1: none)
+	DamagedFirst  bool   `json:"damaged_first,omitempty"`  // peer-logout ending: a damaged Logout precedes the intact one
+	RefuseResends bool   `json:"refuse_resends,omitempty"` // an application outgoing handler refuses every message it is offered a second time (a retransmission); a ResendRequest 1..0 precedes the ending
+	RefuseLogout  bool   `json:"refuse_logout,omitempty"`  // stop ending: an application outgoing handler refuses the Logout, so it never reaches the peer; the deadline still ends the session
+	CounterFails  bool   `json:"counter_fails,omitempty"`  // peer-logout ending: the counter store fails from just before the peer's Logout on; the Logout is answered all the same
+	Probed        bool   `json:"probed"`                   // local endings: the peer has been silent long enough for the session to have sent its TestRequest; the local Logout()/Stop() comes while that is unanswered
 }
 
 func genC15(t *rapid.T) *C15Case {
@@ -62,6 +63,12 @@ func genC15(t *rapid.T) *C15Case {
 	}
 	add(rig.Step{Op: "in", In: g.goodLogon(0)})
 	filler(rapid.IntRange(0, 4).Draw(t, "prefix"), "pre")
+	if rapid.IntRange(0, 4).Draw(t, "refusedResend") == 0 {
+		// the peer asks for everything again and the application's outgoing handler refuses to let a
+		// message out a second time: the resend ends half-way; the logout that follows is unaffected
+		c.RefuseResends = true
+		add(rig.Step{Op: "in", In: g.resend(1, 0)})
+	}
 	timeout := time.Duration(cfg.CloseTimeoutMs) * time.Millisecond
 	probeFirst := func() {
 		if rapid.IntRange(0, 3).Draw(t, "probedFirst") == 0 {
@@ -168,6 +175,22 @@ func genC15(t *rapid.T) *C15Case {
 		add(rig.Step{Op: "advance", Dt: int64(timeout) + 1e9})
 	}
 	c.MaxHB = g.maxHB
+	damaged := false
+	for _, st := range c.Steps {
+		if st.In != nil && st.In.Damage != "" {
+			damaged = true
+		}
+	}
+	if !damaged && rapid.IntRange(0, 4).Draw(t, "tolerant") == 0 {
+		// the application configured its own unmarshaller (SetUnmarshaller), one that does not insist on the
+		// CheckSum value, and the peer writes 000 there: for this session those are valid messages
+		c.Cfg.Tolerant = true
+		for i := range c.Steps {
+			if c.Steps[i].In != nil {
+				c.Steps[i].In.Sloppy = true
+			}
+		}
+	}
 	return c
 }
 
@@ -192,6 +215,23 @@ func checkC15(c *C15Case, rec *evid.Rec) (vs []pbt.Violation) {
 	if c.RefuseLogout {
 		hooks.BeforeRun = func(h *simplefixgo.DefaultHandler, log *rig.EventLog) {
 			h.HandleOutgoing(rig.TLogout, func(simplefixgo.SendingMessage) bool { return false })
+		}
+	}
+	if c.RefuseResends {
+		prev := hooks.BeforeRun
+		hooks.BeforeRun = func(h *simplefixgo.DefaultHandler, log *rig.EventLog) {
+			if prev != nil {
+				prev(h, log)
+			}
+			seen := map[int]bool{}
+			h.HandleOutgoing(simplefixgo.AllMsgTypes, func(msg simplefixgo.SendingMessage) bool {
+				n := msg.HeaderBuilder().MsgSeqNum()
+				if seen[n] {
+					return false
+				}
+				seen[n] = true
+				return true
+			})
 		}
 	}
 	if c.AnswerKind == "hangup" {
@@ -307,6 +347,12 @@ func checkC15(c *C15Case, rec *evid.Rec) (vs []pbt.Violation) {
 	}
 	if c.DamagedFirst {
 		rec.Hist("damaged-logout-before-the-intact-one")
+	}
+	if c.Cfg.Tolerant {
+		rec.Hist("custom-unmarshaller-and-a-peer-that-writes-no-checksums")
+	}
+	if c.RefuseResends {
+		rec.Hist("refused-retransmission-before-the-ending")
 	}
 	if c.CounterFails {
 		rec.Hist("peer-logout-while-counter-store-fails")
